@@ -1,6 +1,7 @@
 from __future__ import annotations
 
 from enum import Enum
+from io import StringIO
 from pathlib import Path
 from typing import Iterator, NamedTuple, Union
 
@@ -398,7 +399,9 @@ class Transformer(NamedTuple):
     def _apply_mutations(self, content: str) -> str:
         if not self.mutations:
             return content
-        lines = content.splitlines(keepends=True)
+        # split on the line boundaries of the parser only
+        # (`str.splitlines` also splits on form feeds and the like)
+        lines = StringIO(content, newline='').readlines()
         if lines and not lines[-1].endswith('\n'):
             # a line inserted below the last one must not be glued to it
             lines[-1] += '\n'
